@@ -281,3 +281,272 @@ Theorem right_file_patched_git : forall o f0 fl name ix h1 hs tail fname A B w d
     fault w' = None /\ umask w' = umask w.
 Proof. exact Proofs_WholeNames.right_file_patched_git. Qed.
 Print Assumptions right_file_patched_git.
+
+(* ===== merged from Properties_WholeRename.v ===== *)
+From PatchV Require Import Base Lines Hunk Locator Formatter Options Applier LineParser Parser World Driver
+     Spec_Locate Spec_Apply Spec_Names Proofs_Base Proofs_Lines Proofs_Unified Proofs_Filler Proofs_Conf Proofs_World Proofs_Reverse
+     Proofs_Sections Proofs_Sections_Unified Proofs_Touch Proofs_Whole Proofs_WholeGit Proofs_WholeNames Proofs_WholeRename.
+
+(* the bytes a rename writes are the bytes read: always under --newline-output=preserve ... *)
+Theorem rewritten_keep : forall o data,
+  newline_output o = MKeep -> rewritten o data = data.
+Proof. exact Proofs_WholeRename.rewritten_keep. Qed.
+Print Assumptions rewritten_keep.
+
+(* ... and under native / lf when no line of the file ends in CR LF *)
+Theorem rewritten_no_crlf : forall o data,
+  newline_output o <> MCRLF -> no_crlf (split_lines data) -> rewritten o data = data.
+Proof. exact Proofs_WholeRename.rewritten_no_crlf. Qed.
+Print Assumptions rewritten_no_crlf.
+
+(* (0) the section of a pure rename: one open for reading, the directories of the new name; the write and the removal are
+   put off.  Names with any number of directories; effective o p: the record with names and modes exchanged under -R *)
+Theorem section_pure_rename : forall o p src dst st s w data mode,
+  plain_options o ->
+  pfmt p = FGit -> poper p = OpRename -> prereq p = [] -> hunks p = [] ->
+  old_path (effective o p) = src -> new_path (effective o p) = dst -> new_mode (effective o p) = 0%N ->
+  src <> dst -> src <> devnull -> src <> [] ->
+  deferred_writes st = [] ->
+  lookup (fs w) src = Some (Reg data mode) -> parent_ok (fs w) src false = true -> (mode < 4096)%N ->
+  lookup (fs w) dst = None ->
+  process_section o st false p s w = rename_section st src dst (rewritten o data) mode s w.
+Proof. exact Proofs_WholeRename.section_pure_rename. Qed.
+Print Assumptions section_pure_rename.
+
+(* the header scan of a pure rename with text behind it (the signature of git format-patch) *)
+Theorem git_rename_scan_trailing : forall strip f fl tl g gn sim rfrom oldn rto newn,
+  Forall (Filler strip (empty_patch f)) fl -> Forall clean fl -> Forall (Trailing strip) tl ->
+  parse_git_header_name strip g = Ok gn ->
+  git_ext_filename strip (bs "a/") rfrom = Ok oldn -> git_ext_filename strip (bs "b/") rto = Ok newn ->
+  clean (bs "diff --git " ++ g) -> clean (bs "similarity index " ++ sim) -> clean (bs "rename from " ++ rfrom) -> clean (bs "rename to " ++ rto) ->
+  parse_patch_header_full (empty_patch f) strip (strm (join_lines (fl ++ rename_lines g sim rfrom rto ++ tl))) =
+  Ok (true, renamed FGit oldn newn, strm (join_lines tl), true).
+Proof. exact Proofs_WholeRename.git_rename_scan_trailing. Qed.
+Print Assumptions git_rename_scan_trailing.
+
+(* (0) the whole run on a pure rename IS rename_prog: open, mkdirs (twice), write, chmod, unlink, rmdirs -- whatever
+   failure is pending in the world, whatever the permissions *)
+Theorem pure_rename_program : forall o f0 fl tl g sim rfrom rto oldn newn w data mode,
+  plain_options o -> format_from_options o = Ok f0 ->
+  Forall (Filler (strip_size o) (empty_patch f0)) fl -> Forall clean fl -> Forall (Trailing (strip_size o)) tl ->
+  rename_text (strip_size o) g sim rfrom rto oldn newn ->
+  rename_ready (fs w) (rename_src o oldn newn) (rename_dst o oldn newn) data mode ->
+  process_patch o (join_lines (fl ++ rename_lines g sim rfrom rto ++ tl)) w =
+  rename_prog (rename_src o oldn newn) (rename_dst o oldn newn) (rewritten o data) mode w.
+Proof. exact Proofs_WholeRename.pure_rename_program. Qed.
+Print Assumptions pure_rename_program.
+
+(* (1) rename_prog without a failure, when every operation is permitted: the tree afterwards is m4 *)
+Theorem rename_prog_runs : forall src dst out mode w data m1 m4,
+  fault w = None -> src <> dst -> dst <> [] ->
+  lookup (fs w) src = Some (Reg data mode) -> parent_ok (fs w) src true = true -> owner_r mode = true ->
+  lookup (fs w) dst = None ->
+  mkdirs_fs (fs w) (umask w) (dir_prefixes dst []) = Some m1 ->
+  parent_ok m1 dst true = true ->
+  rmdirs_fs (length src) (moved m1 (umask w) src dst out mode) src = Some m4 ->
+  exists w', rename_prog src dst out mode w = (Ok (0, []), w') /\ fs w' = m4 /\ fault w' = None /\ umask w' = umask w.
+Proof. exact Proofs_WholeRename.rename_prog_runs. Qed.
+Print Assumptions rename_prog_runs.
+
+(* (1) what m4 is, entry by entry *)
+Theorem moved_tree : forall m um src dst out mode m1 m4,
+  src <> dst -> lookup m dst = None ->
+  mkdirs_fs m um (dir_prefixes dst []) = Some m1 ->
+  rmdirs_fs (length src) (moved m1 um src dst out mode) src = Some m4 ->
+  lookup m4 dst = Some (Reg out mode) /\
+  lookup m4 src = None /\
+  (forall q, In q (dir_prefixes dst []) -> q <> src -> lookup m4 q = or_made um (lookup m q)) /\
+  (forall q, q <> src -> q <> dst -> ~ In q (dir_prefixes dst []) -> ~ is_ancestor q src -> lookup m4 q = lookup m q) /\
+  (forall q, q <> dst -> ~ In q (dir_prefixes dst []) -> is_ancestor q src -> untouched_or_emptied m m4 q).
+Proof. exact Proofs_WholeRename.moved_tree. Qed.
+Print Assumptions moved_tree.
+
+(* (1) the usual case is permitted, and makes and removes no directory *)
+Theorem permitted_same_dir : forall m um src dst out mode,
+  src <> dst -> src <> [] -> dst <> [] -> lookup m dst = None ->
+  parent src = parent dst ->
+  parent_ok m src true = true -> owner_r mode = true ->
+  (forall d, In d (dir_prefixes dst []) -> lookup m d <> None) ->
+  (forall d, parent src = Some d -> parent_ok m d true = true) ->
+  rename_permitted m um src dst out mode m (moved m um src dst out mode).
+Proof. exact Proofs_WholeRename.permitted_same_dir. Qed.
+Print Assumptions permitted_same_dir.
+
+(* (1) end to end, any spelling of the names, forward or -R *)
+Theorem pure_rename_end_to_end_gen : forall o f0 fl tl g sim rfrom rto oldn newn w data mode m1 m4,
+  plain_options o -> format_from_options o = Ok f0 ->
+  Forall (Filler (strip_size o) (empty_patch f0)) fl -> Forall clean fl -> Forall (Trailing (strip_size o)) tl ->
+  rename_text (strip_size o) g sim rfrom rto oldn newn ->
+  fault w = None ->
+  rename_ready (fs w) (rename_src o oldn newn) (rename_dst o oldn newn) data mode ->
+  rename_permitted (fs w) (umask w) (rename_src o oldn newn) (rename_dst o oldn newn) (rewritten o data) mode m1 m4 ->
+  exists w',
+    process_patch o (join_lines (fl ++ rename_lines g sim rfrom rto ++ tl)) w = (Ok (0, []), w') /\
+    fs w' = m4 /\ fault w' = None /\ umask w' = umask w /\
+    moved_to (fs w) (umask w) (rename_src o oldn newn) (rename_dst o oldn newn) (rewritten o data) mode (fs w').
+Proof. exact Proofs_WholeRename.pure_rename_end_to_end_gen. Qed.
+Print Assumptions pure_rename_end_to_end_gen.
+
+(* (1) end to end, names written plainly, forward *)
+Theorem pure_rename_end_to_end : forall o f0 fl tl oldn newn sim w data mode m1 m4,
+  plain_options o -> reverse_patch_opt o = false -> format_from_options o = Ok f0 ->
+  Forall (Filler (strip_size o) (empty_patch f0)) fl -> Forall clean fl -> Forall (Trailing (strip_size o)) tl ->
+  hd 0%N oldn <> 34%N -> hd 0%N newn <> 34%N -> clean oldn -> clean newn -> clean sim ->
+  fault w = None ->
+  rename_ready (fs w) (ext_name (strip_size o) (bs "a/") oldn) (ext_name (strip_size o) (bs "b/") newn) data mode ->
+  rename_permitted (fs w) (umask w) (ext_name (strip_size o) (bs "a/") oldn) (ext_name (strip_size o) (bs "b/") newn) data mode m1 m4 ->
+  rewritten o data = data ->
+  exists w',
+    process_patch o (join_lines (fl ++ rename_lines ((bs "a/" ++ oldn) ++ bs " b/" ++ newn) sim oldn newn ++ tl)) w = (Ok (0, []), w') /\
+    fs w' = m4 /\ fault w' = None /\ umask w' = umask w /\
+    moved_to (fs w) (umask w) (ext_name (strip_size o) (bs "a/") oldn) (ext_name (strip_size o) (bs "b/") newn) data mode (fs w').
+Proof. exact Proofs_WholeRename.pure_rename_end_to_end. Qed.
+Print Assumptions pure_rename_end_to_end.
+
+(* (1) end to end, names C-quoted (any bytes), forward *)
+Theorem pure_rename_end_to_end_quoted : forall o f0 fl tl oldn newn sim w data mode m1 m4,
+  plain_options o -> reverse_patch_opt o = false -> format_from_options o = Ok f0 ->
+  Forall (Filler (strip_size o) (empty_patch f0)) fl -> Forall clean fl -> Forall (Trailing (strip_size o)) tl ->
+  bytes oldn -> bytes newn -> clean sim ->
+  fault w = None ->
+  rename_ready (fs w) (ext_name (strip_size o) (bs "a/") oldn) (ext_name (strip_size o) (bs "b/") newn) data mode ->
+  rename_permitted (fs w) (umask w) (ext_name (strip_size o) (bs "a/") oldn) (ext_name (strip_size o) (bs "b/") newn) data mode m1 m4 ->
+  rewritten o data = data ->
+  exists w',
+    process_patch o (join_lines (fl ++ rename_lines (cquote (bs "a/" ++ oldn) ++ bs " " ++ cquote (bs "b/" ++ newn)) sim
+                                                     (cquote oldn) (cquote newn) ++ tl)) w = (Ok (0, []), w') /\
+    fs w' = m4 /\ fault w' = None /\ umask w' = umask w /\
+    moved_to (fs w) (umask w) (ext_name (strip_size o) (bs "a/") oldn) (ext_name (strip_size o) (bs "b/") newn) data mode (fs w').
+Proof. exact Proofs_WholeRename.pure_rename_end_to_end_quoted. Qed.
+Print Assumptions pure_rename_end_to_end_quoted.
+
+(* (1) end to end, the usual case: every entry other than the two names is as it was *)
+Theorem pure_rename_same_dir : forall o f0 fl tl oldn newn sim w data mode,
+  plain_options o -> reverse_patch_opt o = false -> format_from_options o = Ok f0 ->
+  Forall (Filler (strip_size o) (empty_patch f0)) fl -> Forall clean fl -> Forall (Trailing (strip_size o)) tl ->
+  hd 0%N oldn <> 34%N -> hd 0%N newn <> 34%N -> clean oldn -> clean newn -> clean sim ->
+  let src := ext_name (strip_size o) (bs "a/") oldn in
+  let dst := ext_name (strip_size o) (bs "b/") newn in
+  fault w = None ->
+  rename_ready (fs w) src dst data mode ->
+  dst <> [] -> parent src = parent dst ->
+  parent_ok (fs w) src true = true -> owner_r mode = true ->
+  (forall d, In d (dir_prefixes dst []) -> lookup (fs w) d <> None) ->
+  (forall d, parent src = Some d -> parent_ok (fs w) d true = true) ->
+  rewritten o data = data ->
+  exists w',
+    process_patch o (join_lines (fl ++ rename_lines ((bs "a/" ++ oldn) ++ bs " b/" ++ newn) sim oldn newn ++ tl)) w = (Ok (0, []), w') /\
+    lookup (fs w') dst = Some (Reg data mode) /\ lookup (fs w') src = None /\
+    (forall q, q <> src -> q <> dst -> lookup (fs w') q = lookup (fs w) q) /\
+    fault w' = None /\ umask w' = umask w.
+Proof. exact Proofs_WholeRename.pure_rename_same_dir. Qed.
+Print Assumptions pure_rename_same_dir.
+
+(* (2) C09: no hypothesis on the pending failure nor on permissions *)
+Theorem pure_rename_never_lost_gen : forall o f0 fl tl g sim rfrom rto oldn newn w data mode,
+  plain_options o -> format_from_options o = Ok f0 ->
+  Forall (Filler (strip_size o) (empty_patch f0)) fl -> Forall clean fl -> Forall (Trailing (strip_size o)) tl ->
+  rename_text (strip_size o) g sim rfrom rto oldn newn ->
+  rename_ready (fs w) (rename_src o oldn newn) (rename_dst o oldn newn) data mode ->
+  match process_patch o (join_lines (fl ++ rename_lines g sim rfrom rto ++ tl)) w with
+  | (Ok _, w') => lookup (fs w') (rename_src o oldn newn) = None /\
+                  lookup (fs w') (rename_dst o oldn newn) = Some (Reg (rewritten o data) mode)
+  | (Throw _, w') => lookup (fs w') (rename_src o oldn newn) = Some (Reg data mode) \/
+                     lookup (fs w') (rename_dst o oldn newn) = Some (Reg (rewritten o data) mode)
+  end.
+Proof. exact Proofs_WholeRename.pure_rename_never_lost_gen. Qed.
+Print Assumptions pure_rename_never_lost_gen.
+
+(* (2) C09, names plain, forward: never neither *)
+Theorem pure_rename_never_lost : forall o f0 fl tl oldn newn sim w data mode,
+  plain_options o -> reverse_patch_opt o = false -> format_from_options o = Ok f0 ->
+  Forall (Filler (strip_size o) (empty_patch f0)) fl -> Forall clean fl -> Forall (Trailing (strip_size o)) tl ->
+  hd 0%N oldn <> 34%N -> hd 0%N newn <> 34%N -> clean oldn -> clean newn -> clean sim ->
+  rename_ready (fs w) (ext_name (strip_size o) (bs "a/") oldn) (ext_name (strip_size o) (bs "b/") newn) data mode ->
+  rewritten o data = data ->
+  forall r w', process_patch o (join_lines (fl ++ rename_lines ((bs "a/" ++ oldn) ++ bs " b/" ++ newn) sim oldn newn ++ tl)) w = (r, w') ->
+  lookup (fs w') (ext_name (strip_size o) (bs "a/") oldn) = Some (Reg data mode) \/
+  lookup (fs w') (ext_name (strip_size o) (bs "b/") newn) = Some (Reg data mode).
+Proof. exact Proofs_WholeRename.pure_rename_never_lost. Qed.
+Print Assumptions pure_rename_never_lost.
+
+(* (2) C09 to the letter: a failure at the k-th operation, any k *)
+Theorem pure_rename_fault_at_any_operation : forall o f0 fl tl oldn newn sim w data mode k,
+  plain_options o -> reverse_patch_opt o = false -> format_from_options o = Ok f0 ->
+  Forall (Filler (strip_size o) (empty_patch f0)) fl -> Forall clean fl -> Forall (Trailing (strip_size o)) tl ->
+  hd 0%N oldn <> 34%N -> hd 0%N newn <> 34%N -> clean oldn -> clean newn -> clean sim ->
+  fault w = Some k ->
+  rename_ready (fs w) (ext_name (strip_size o) (bs "a/") oldn) (ext_name (strip_size o) (bs "b/") newn) data mode ->
+  rewritten o data = data ->
+  let w' := snd (process_patch o (join_lines (fl ++ rename_lines ((bs "a/" ++ oldn) ++ bs " b/" ++ newn) sim oldn newn ++ tl)) w) in
+  lookup (fs w') (ext_name (strip_size o) (bs "a/") oldn) = Some (Reg data mode) \/
+  lookup (fs w') (ext_name (strip_size o) (bs "b/") newn) = Some (Reg data mode).
+Proof. exact Proofs_WholeRename.pure_rename_fault_at_any_operation. Qed.
+Print Assumptions pure_rename_fault_at_any_operation.
+
+(* (3) C05: the same patch under -R on the tree that holds the new name *)
+Theorem pure_rename_reverse : forall o f0 fl tl oldn newn sim w data mode m1 m4,
+  plain_options o -> reverse_patch_opt o = true -> format_from_options o = Ok f0 ->
+  Forall (Filler (strip_size o) (empty_patch f0)) fl -> Forall clean fl -> Forall (Trailing (strip_size o)) tl ->
+  hd 0%N oldn <> 34%N -> hd 0%N newn <> 34%N -> clean oldn -> clean newn -> clean sim ->
+  fault w = None ->
+  rename_ready (fs w) (ext_name (strip_size o) (bs "b/") newn) (ext_name (strip_size o) (bs "a/") oldn) data mode ->
+  rename_permitted (fs w) (umask w) (ext_name (strip_size o) (bs "b/") newn) (ext_name (strip_size o) (bs "a/") oldn) data mode m1 m4 ->
+  rewritten o data = data ->
+  exists w',
+    process_patch o (join_lines (fl ++ rename_lines ((bs "a/" ++ oldn) ++ bs " b/" ++ newn) sim oldn newn ++ tl)) w = (Ok (0, []), w') /\
+    fs w' = m4 /\ fault w' = None /\ umask w' = umask w /\
+    moved_to (fs w) (umask w) (ext_name (strip_size o) (bs "b/") newn) (ext_name (strip_size o) (bs "a/") oldn) data mode (fs w').
+Proof. exact Proofs_WholeRename.pure_rename_reverse. Qed.
+Print Assumptions pure_rename_reverse.
+
+(* (3) C05, names C-quoted *)
+Theorem pure_rename_reverse_quoted : forall o f0 fl tl oldn newn sim w data mode m1 m4,
+  plain_options o -> reverse_patch_opt o = true -> format_from_options o = Ok f0 ->
+  Forall (Filler (strip_size o) (empty_patch f0)) fl -> Forall clean fl -> Forall (Trailing (strip_size o)) tl ->
+  bytes oldn -> bytes newn -> clean sim ->
+  fault w = None ->
+  rename_ready (fs w) (ext_name (strip_size o) (bs "b/") newn) (ext_name (strip_size o) (bs "a/") oldn) data mode ->
+  rename_permitted (fs w) (umask w) (ext_name (strip_size o) (bs "b/") newn) (ext_name (strip_size o) (bs "a/") oldn) data mode m1 m4 ->
+  rewritten o data = data ->
+  exists w',
+    process_patch o (join_lines (fl ++ rename_lines (cquote (bs "a/" ++ oldn) ++ bs " " ++ cquote (bs "b/" ++ newn)) sim
+                                                     (cquote oldn) (cquote newn) ++ tl)) w = (Ok (0, []), w') /\
+    fs w' = m4 /\ fault w' = None /\ umask w' = umask w /\
+    moved_to (fs w) (umask w) (ext_name (strip_size o) (bs "b/") newn) (ext_name (strip_size o) (bs "a/") oldn) data mode (fs w').
+Proof. exact Proofs_WholeRename.pure_rename_reverse_quoted. Qed.
+Print Assumptions pure_rename_reverse_quoted.
+
+(* (3)+(2): under -R too the bytes are never lost *)
+Theorem pure_rename_reverse_never_lost : forall o f0 fl tl oldn newn sim w data mode,
+  plain_options o -> reverse_patch_opt o = true -> format_from_options o = Ok f0 ->
+  Forall (Filler (strip_size o) (empty_patch f0)) fl -> Forall clean fl -> Forall (Trailing (strip_size o)) tl ->
+  hd 0%N oldn <> 34%N -> hd 0%N newn <> 34%N -> clean oldn -> clean newn -> clean sim ->
+  rename_ready (fs w) (ext_name (strip_size o) (bs "b/") newn) (ext_name (strip_size o) (bs "a/") oldn) data mode ->
+  rewritten o data = data ->
+  forall r w', process_patch o (join_lines (fl ++ rename_lines ((bs "a/" ++ oldn) ++ bs " b/" ++ newn) sim oldn newn ++ tl)) w = (r, w') ->
+  lookup (fs w') (ext_name (strip_size o) (bs "b/") newn) = Some (Reg data mode) \/
+  lookup (fs w') (ext_name (strip_size o) (bs "a/") oldn) = Some (Reg data mode).
+Proof. exact Proofs_WholeRename.pure_rename_reverse_never_lost. Qed.
+Print Assumptions pure_rename_reverse_never_lost.
+
+(* a pure rename followed by another diff --git section: the step of the loop *)
+Theorem pure_rename_then_next : forall o f0 fl g sim rfrom rto oldn newn g2 more st first k w data mode,
+  plain_options o ->
+  Forall (Filler (strip_size o) (empty_patch f0)) fl -> Forall clean fl ->
+  rename_text (strip_size o) g sim rfrom rto oldn newn -> clean (bs "diff --git " ++ g2) ->
+  deferred_writes st = [] ->
+  rename_ready (fs w) (rename_src o oldn newn) (rename_dst o oldn newn) data mode ->
+  section_loop (S k) o f0 st (strm (join_lines (fl ++ rename_lines g sim rfrom rto) ++ (bs "diff --git " ++ g2) ++ 10%N :: more)) first w =
+  (let! y := rename_section st (rename_src o oldn newn) (rename_dst o oldn newn) (rewritten o data) mode
+                            (strm ((bs "diff --git " ++ g2) ++ 10%N :: more)) in
+   section_loop k o f0 (fst y) (snd y) false) w.
+Proof. exact Proofs_WholeRename.pure_rename_then_next. Qed.
+Print Assumptions pure_rename_then_next.
+
+(* (2) on the program itself: from a tree where src holds the bytes and dst is not there, rename_prog ends normally with
+   the file at dst and src gone, or with an exception and the bytes at src or at dst *)
+Theorem rename_prog_safe : forall src dst data out mode, src <> dst ->
+  Tri (held src dst data mode) (rename_prog src dst out mode) (fun _ => arrived src dst out mode) (not_lost src dst data out mode).
+Proof. exact Proofs_WholeRename.rename_prog_safe. Qed.
+Print Assumptions rename_prog_safe.
